@@ -136,6 +136,20 @@ func resultProblems(res *verifrt.Result) []string {
 	return v
 }
 
+// raceProblems turns the reports of the runtime's happens-before detector (tracked packages only) into violations.
+func raceProblems(res *verifrt.Result) []string {
+	var v []string
+	for _, r := range res.Races {
+		// a pair with the harness's own observer (verif_hooks.go, read from the driver thread without the datastore
+		// lock that orders the production accesses) says nothing about the product
+		if strings.Contains(r, "verif_hooks.go") {
+			continue
+		}
+		v = append(v, "data-race: "+r)
+	}
+	return v
+}
+
 func crashSiteOf(stack string) string {
 	for _, l := range strings.Split(stack, "\n") {
 		if i := strings.Index(l, "github.com/sdcio/data-server/pkg/"); i >= 0 && !strings.Contains(l, "verifrt") {
